@@ -160,12 +160,13 @@ func traceStrings(trace []string) (string, string) {
 func runProduct(pi *Prog, impl *ssa.Function, pr *Prog, ref *ssa.Function, alpha *Alphabet, maxWindow, maxStates int) *productResult {
 	res := &productResult{}
 	mi := NewMachine(pi, alpha)
+	installStringModels(mi)
 	mi.Curs = computeCursors(reachableRepoFuncs(impl))
 	mr := NewMachine(pr, alpha)
 	mr.Curs = computeCursors(reachableRepoFuncs(ref))
 	type pst struct{ a, b *State }
-	a0 := mi.NewState(impl, []Val{TapeStr{0}, TapeStr{1}}, 2)
-	b0 := mr.NewState(ref, []Val{TapeStr{0}, TapeStr{1}}, 2)
+	a0 := mi.NewState(impl, []Val{TapeStr{T: 0}, TapeStr{T: 1}}, 2)
+	b0 := mr.NewState(ref, []Val{TapeStr{T: 0}, TapeStr{T: 1}}, 2)
 	seen := map[string]bool{}
 	var work []pst
 	settle := func(m *Machine, s *State) *State {
